@@ -25,6 +25,14 @@ def run_mux(program, events, end='complete', monitor=True, fail=None, notaps=Fal
     ctx.extra['store'] = manager
 
     def mk(subject):
+        k = ctx.extra.get('two_stores')
+        if k:
+            # two store scopes chained on one multiplexed stream: multiplex(pipe(with_store(m1, program[:k]), with_store(m2, program[k:])))
+            ops = build(program, ctx, 'mux', 'P')
+            cutpos = k if ctx.notaps else 2 * k + 1
+            manager2 = rs.state.StoreManager(store_factory=rs.state.MemoryStore)
+            return subject.pipe(rs.ops.multiplex(rx.pipe(rs.state.with_store(manager, pipeline=ops[:cutpos]),
+                                                         rs.state.with_store(manager2, pipeline=ops[cutpos:]))))
         return subject.pipe(rs.state.with_store(manager, pipeline=build(program, ctx, 'mux', 'P')))
     if items is None:
         final, escaped = drive_hot(ctx, mk, events, end, mk_item=mk_rec, driver=driver)
